@@ -13,7 +13,8 @@ RULE = ("Case = one generated link-rich file (60-110 random valid operations, na
         "followed by 4-6 judged removals: delete of a block / array / frame / tag / multi-tag / group / (nested) source "
         "/ (nested) section / property / feature addressed by name, id, index or object - after wiring to the victim, "
         "from outside its parent, one inbound link of every role its kind can receive - or removal of one link-list "
-        "entry / one metadata link.  Distinct by (victim kind or unlink role, addressing mode, set of link roles "
+        "entry / one metadata link; after a clean delete a successor is created under the victim's name through the very container object the deletion "
+        "went through, which must yield the successor and never the deleted entity.  Distinct by (victim kind or unlink role, addressing mode, set of link roles "
         "pointing at the victim); trivial = none.")
 ASSUMPTIONS = ["a role link (positions, extents, feature data, metadata, section link, dimension link) whose target was deleted may read as None or raise; it must not yield the deleted entity",
                "the record of a dimension whose link target was deleted is not compared beyond 'does not yield the target'",
